@@ -76,6 +76,7 @@ type recorder struct {
 	uret   map[string]bool // datagram payloads handled
 	laddr  map[int]string
 	failed map[int]bool
+	wrote  map[int]bool // clients that are through with their writes
 }
 
 func (r *recorder) add(e ev) {
@@ -151,7 +152,7 @@ const (
 )
 
 func runScenario(sc scenario, stopTimeout time.Duration) []ev {
-	r := &recorder{hret: map[string]bool{}, uret: map[string]bool{}, laddr: map[int]string{}, failed: map[int]bool{}}
+	r := &recorder{hret: map[string]bool{}, uret: map[string]bool{}, laddr: map[int]string{}, failed: map[int]bool{}, wrote: map[int]bool{}}
 	r.add(ev{"ev": "hist", "id": sc.ID})
 	var l *input.Listener
 	var addr string
@@ -238,6 +239,9 @@ func runScenario(sc scenario, stopTimeout time.Duration) []ev {
 					break
 				}
 			}
+			r.mu.Lock()
+			r.wrote[cl.C] = true
+			r.mu.Unlock()
 			if cl.End == "close" {
 				r.add(ev{"ev": "cclose", "c": cl.C})
 				conn.Close()
@@ -303,6 +307,9 @@ func runScenario(sc scenario, stopTimeout time.Duration) []ev {
 			done := true
 			r.mu.Lock()
 			for _, cl := range sc.Clients {
+				if cl.Phase == ph && !r.failed[cl.C] && !r.wrote[cl.C] {
+					done = false
+				}
 				if cl.Phase == ph && cl.End == "close" && !r.failed[cl.C] {
 					la, ok := r.laddr[cl.C]
 					if !ok || !r.hret[la] {
